@@ -110,7 +110,7 @@ int main(int argc, char** argv) {
       const Scen& s = scens[i];
       uint64_t idx = c.next_case++; if (c.only >= 0 && idx != uint64_t(c.only)) continue; if (idx < c.from && c.shard != 0) continue;
       c.prog->case_idx = idx; ++c.cases_run; vf::note(std::string("scenario ") + s.name);
-      xs::Options o; o.bound = vf::thorough() ? s.bound_thorough : s.bound_quick; o.shard = c.only >= 0 ? 0 : c.shard; o.nshards = c.only >= 0 ? 1 : c.nshards; o.deadline_s = c.deadline - vf::elapsed(); o.keep_going = [] { vf::heartbeat(); return true; };
+      xs::Options o; o.bound = (vf::thorough() ? s.bound_thorough : s.bound_quick) + (vf::deep() ? 2 : 0); o.shard = c.only >= 0 ? 0 : c.shard; o.nshards = c.only >= 0 ? 1 : c.nshards; o.deadline_s = c.deadline - vf::elapsed(); o.keep_going = [] { vf::heartbeat(); return true; };
       xs::Stats st; std::map<std::string, xs::Finding> f;
       xs::explore(s.name, s.body, o, st, f);
       if (!st.complete) c.capped = true;
